@@ -1,4 +1,4 @@
-HOOK_COMMITS = []
+HOOK_COMMITS = ["d538c87"]
 ENGINES = [
     {"name": "lean", "path": "lean/", "kind_free_text": "Lean 4 library Tcell (models, specs, lemmas, property theorems) + line-protocol driver executable",
      "serves_properties": ["C08"]},
